@@ -92,6 +92,40 @@ def judge(ctx, rep, spec, pristine, ptree, ops, limit, coords, model_batch, pend
     shutil.rmtree(path, ignore_errors=True)
 
 
+def same_path_history(ctx, rep, spec, ptree, op, lv, fault, cls):
+    """a history on ONE path in ONE process: the intact plotfile is validated (good), then damaged in place (only the
+    files the operator touches are rewritten), then validated again: the second verdict speaks about what is there now"""
+    import shutil
+    path = ctx.newdir("c04h_")
+    tastelib.write_tree(ptree, path)
+    case = {"spec": spec, "ops": [op], "limit": None, "coords": False, "fault": fault, "class": cls, "level": lv, "history": "same-path"}
+    rep.case({"s": spec, "o": [op], "h": "same-path"}, nontrivial=True)
+    rep.count("history:validated-intact-then-damaged-in-place")
+    g0, r0 = tastelib.real_taste(path, nofail=False)
+    if not g0 or r0 is not None:
+        shutil.rmtree(path, ignore_errors=True)
+        return          # C03's business
+    tree = tastelib.apply_ops(ptree, [op])
+    for rel in set(ptree) | set(tree):
+        dst = os.path.join(path, rel)
+        if rel not in tree:
+            os.remove(dst)
+        elif tree[rel] is not ptree.get(rel):
+            os.makedirs(os.path.dirname(dst), exist_ok=True)
+            with open(dst, "wb") as f:
+                f.write(tree[rel])
+    gf, rf = tastelib.real_taste(path, nofail=False)
+    gn, rn = tastelib.real_taste(path, nofail=True)
+    obs = {"fail_mode": [gf, rf], "nofail_mode": [gn, rn]}
+    if fault is True and (gf or gn):
+        rep.fail(f"a plotfile validated while intact, then damaged in place ({cls}), is still reported good", case, obs)
+    elif gf != gn:
+        rep.fail("failing and non-failing mode disagree about the verdict after the plotfile was damaged in place", case, obs)
+    else:
+        rep.agree()
+    shutil.rmtree(path, ignore_errors=True)
+
+
 def sweep(ctx, rep, model, focus):
     nspec = 8 if ctx.quick else 24
     for si in range(nspec):
@@ -104,6 +138,10 @@ def sweep(ctx, rep, model, focus):
             # than 100 bytes; only for the read-after-validation sweep (coordinate validation is not part of it)
             # (six-digit indices: a difference of one is below numpy's default relative tolerance)
             spec["idx_shift"] = [1000, 123456][si % 8 == 2]
+        if focus == "C04" and si % 4 == 1:
+            # six-digit cell indices: a shift of one or two cells is below numpy's default *relative* tolerance, so index
+            # ranges compared approximately would pass
+            spec["idx_shift"] = 300000; rep.count("six-digit-index-space")
         pristine = ctx.newdir("c04p_")
         plotgen.materialize(spec, pristine)
         ptree = tastelib.snapshot(pristine)
@@ -111,6 +149,15 @@ def sweep(ctx, rep, model, focus):
         ops = tastelib.enumerate_ops(ptree, nlev, ctx.rng, spec["ndims"], len(spec["fields"]))
         batch = tastelib.ModelBatch() if model else None
         pend = []
+        if focus == "C04":
+            hist = [o for o in ops if o[2] is True and not o[0].get("dir")]
+            ctx.rng.shuffle(hist)
+            seen_cls = set()
+            for op, lv, fault, cls in hist:
+                if cls in seen_cls or len(seen_cls) >= (10 if ctx.quick else 40):
+                    continue
+                seen_cls.add(cls)
+                same_path_history(ctx, rep, spec, ptree, op, lv, fault, cls)
         # the pristine plotfile itself
         judge(ctx, rep, spec, pristine, ptree, [], None, False, batch, pend, focus, None, "pristine", 0)
         budget = 450 if ctx.quick else 1500
@@ -132,7 +179,7 @@ def sweep(ctx, rep, model, focus):
             for op, lv, fault, cls in ops[:: max(1, len(ops) // 60)]:
                 judge(ctx, rep, spec, pristine, ptree, [op], 0, False, batch, pend, focus, fault, cls, lv)
         # physical bounds with coordinate validation
-        if focus == "C04":
+        if focus == "C04" and not spec.get("idx_shift"):
             for op, lv, fault, cls in header_bound_ops(ptree, spec):
                 judge(ctx, rep, spec, pristine, ptree, [op], None, True, None, pend, focus, fault, cls, lv)
         # pairs at distinct sites (a second edit elsewhere never repairs the first)
@@ -180,6 +227,9 @@ def replay(ctx, rep, obj, model=True, focus="C04"):
     ptree = tastelib.snapshot(pristine)
     batch = tastelib.ModelBatch() if model else None
     pend = []
+    if c.get("history") == "same-path":
+        same_path_history(ctx, rep, spec, ptree, c["ops"][0], c.get("level", 0), c.get("fault"), c.get("class", "?"))
+        return
     judge(ctx, rep, spec, pristine, ptree, c["ops"], c.get("limit"), c.get("coords", False), batch, pend, focus,
           c.get("fault"), c.get("class", "?"), c.get("level", 0), case_cli=c.get("cli", False))
     if batch is not None and pend:
